@@ -24,6 +24,7 @@ type SpecCtx struct {
 	What    string
 	Pre     *State // state before the call (call-site assume clauses)
 	TypeEnv map[string]types.Type // type parameters of the generic function under verification
+	FreeBind map[string]*Val // captured variables of a closure whose contract is applied at a call site
 }
 
 type specErr struct{ msg string }
@@ -295,6 +296,9 @@ func (c *SpecCtx) ident(name string) *Val {
 	if v, ok := c.Vars[name]; ok {
 		return v
 	}
+	if v, ok := c.FreeBind[name]; ok {
+		return c.derefVal(v)
+	}
 	if c.Fr != nil {
 		if cell := c.findCell(name); cell != nil {
 			st := c.state()
@@ -439,6 +443,11 @@ func (c *SpecCtx) index(x, i *Val) *Val {
 	X := c.X
 	ts := X.E.TS
 	st := c.state()
+	if x.Row != nil {
+		if u, ok := x.GT.Underlying().(*types.Slice); ok {
+			return &Val{T: ts.Select(x.Row, ts.Add(ts.Sel(x.T, 1), i.T)), GT: u.Elem()}
+		}
+	}
 	switch u := x.GT.Underlying().(type) {
 	case *types.Slice:
 		n, s := X.E.ElemHeap(u.Elem())
@@ -624,6 +633,15 @@ func (c *SpecCtx) call(e *SExpr) *Val {
 	case "off":
 		x := c.eval(e.Args[0])
 		return &Val{T: ts.Sel(x.T, 1), GT: intT}
+	case "unchanged":
+		// unchanged(s): the backing array of slice s holds what it held in the old state (whole-array equality)
+		x := c.eval(e.Args[0])
+		el := sliceElem(x.GT)
+		n, hs := X.E.ElemHeap(el)
+		if c.Old == nil {
+			c.fail("unchanged() needs an old state")
+		}
+		return &Val{T: ts.Eq(ts.Select(X.heap(c.St, n, hs), ts.Sel(x.T, 0)), ts.Select(X.heap(c.Old, n, hs), ts.Sel(x.T, 0))), GT: boolT}
 	case "elemabs":
 		// elemabs(s, j): element at absolute index j of the backing array of slice s
 		x := c.eval(e.Args[0])
@@ -792,6 +810,7 @@ func (c *SpecCtx) specCall(sf *SpecFunc, e *SExpr) *Val {
 		as = append(as, c.coerce(a, want))
 		sorts = append(sorts, want)
 	}
+
 	resS := X.E.SortOf(resT)
 	deps := X.specDepsEnv(sf, sc.Pkg, c.TypeEnv)
 	var hargs []*Term
@@ -799,6 +818,38 @@ func (c *SpecCtx) specCall(sf *SpecFunc, e *SExpr) *Val {
 	for _, d := range deps {
 		hargs = append(hargs, X.heap(c.state(), d.name, d.sort))
 		hsorts = append(hsorts, d.sort)
+	}
+	// slice parameters: their backing array (the row of the element heap) travels as a hidden argument, so that the
+	// function depends on that array only and not on the whole element heap
+	type rowp struct {
+		idx  int
+		sort *Sort
+	}
+	var rows []rowp
+	for i, p := range sf.Params {
+		if sl, ok := sc.lookupType(p.Type).Underlying().(*types.Slice); ok {
+			_, hs := X.E.ElemHeap(sl.Elem())
+			rows = append(rows, rowp{i, hs.Elem})
+		}
+	}
+	for _, r := range rows {
+		a := args[r.idx]
+		var rt *Term
+		if a.Row != nil {
+			rt = a.Row
+		} else {
+			sl := sc.lookupType(sf.Params[r.idx].Type).Underlying().(*types.Slice)
+			n, hs := X.E.ElemHeap(sl.Elem())
+			rt = ts.Select(X.heap(c.state(), n, hs), ts.Sel(as[r.idx], 0))
+		}
+		hargs = append(hargs, rt)
+		hsorts = append(hsorts, r.sort)
+	}
+	if len(c.TypeEnv) > 0 {
+		// one SMT function per instantiation of a generic spec function
+		for _, srt := range append(append([]*Sort{}, hsorts...), sorts...) {
+			fname += "~" + sanitize(srt.Name)
+		}
 	}
 	if _, ok := ts.Funcs[fname]; !ok {
 		ts.DeclareFunc(fname, append(append([]*Sort{}, hsorts...), sorts...), resS)
@@ -813,11 +864,18 @@ func (c *SpecCtx) specCall(sf *SpecFunc, e *SExpr) *Val {
 				hs.Heaps[d.name] = b
 			}
 			dc := &SpecCtx{X: X, St: hs, Old: hs, Vars: map[string]*Val{}, OldVars: map[string]*Val{}, Bound: map[string]*Val{}, Pkg: sc.Pkg, What: "definition of " + sf.Name, TypeEnv: c.TypeEnv}
+			rowB := map[int]*Term{}
+			for _, r := range rows {
+				b := ts.BoundVar("row", r.sort)
+				bound = append(bound, b)
+				bargs = append(bargs, b)
+				rowB[r.idx] = b
+			}
 			for i, p := range sf.Params {
 				b := ts.BoundVar(p.Name, sorts[i])
 				bound = append(bound, b)
 				bargs = append(bargs, b)
-				dc.Bound[p.Name] = &Val{T: b, GT: dc.lookupType(p.Type)}
+				dc.Bound[p.Name] = &Val{T: b, GT: dc.lookupType(p.Type), Row: rowB[i]}
 			}
 			app := ts.App(fname, resS, bargs...)
 			body := dc.eval(sf.Body)
@@ -853,7 +911,12 @@ func (X *Exec) specDepsEnv(sf *SpecFunc, pkg *types.Package, env map[string]type
 	dc := &SpecCtx{X: X, St: hs, Old: hs, Vars: map[string]*Val{}, OldVars: map[string]*Val{}, Bound: map[string]*Val{}, Pkg: pkg, What: "dependencies of " + sf.Name, TypeEnv: env}
 	for _, p := range sf.Params {
 		T := dc.lookupType(p.Type)
-		dc.Bound[p.Name] = &Val{T: ts.BoundVar(p.Name, X.E.SortOf(T)), GT: T}
+		v := &Val{T: ts.BoundVar(p.Name, X.E.SortOf(T)), GT: T}
+		if sl, ok := T.Underlying().(*types.Slice); ok {
+			_, hs := X.E.ElemHeap(sl.Elem())
+			v.Row = ts.BoundVar("row", hs.Elem)
+		}
+		dc.Bound[p.Name] = v
 	}
 	X.E.specTrial[sf.Name] = true
 	dc.eval(sf.Body)
